@@ -17,7 +17,7 @@ RULE = ('(a) fault points, ENUMERATED per score: a complete score-partwise built
         'its check (a child removed so that a required one is missing, or a required attribute removed) and, '
         'separately, an exception is injected at the k-th call of xml.etree.ElementTree.indent (the stdlib helper the '
         'serialiser calls once per element) for EVERY k, and the open() of the destination is refused by the operating system (OSError injected at builtins.open); each fault x prior destination state in {empty file, '
-        'previous valid document, arbitrary bytes}.  Oracle: write() raises and the destination bytes are exactly '
+        'previous valid document, arbitrary bytes, no file}.  Oracle: write() raises and the destination bytes are exactly '
         'what they were.  (b) success, for every prior state in {absent, empty, shorter valid document, arbitrary '
         'bytes, a document longer than the new one}: on return the file holds the XML declaration + to_string() encoded UTF-8 and '
         'xml.etree re-reads it.  (c) configurations: fresh interpreters with default text encoding ASCII '
@@ -27,7 +27,7 @@ RULE = ('(a) fault points, ENUMERATED per score: a complete score-partwise built
         'UTF-16, as declared ISO-8859-1 and with CRLF line ends: files must be byte-identical and '
         're-serialisations identical across all configurations.  Non-trivial: (a) the failing node is not the root '
         'and the prior content is non-empty; (b) non-ASCII text or a prior longer than the document; (c) the document contains non-ASCII text.')
-ASSUMPTIONS = ['destination unchanged is asserted for pre-existing files only',
+ASSUMPTIONS = ['for a destination that did not exist, "untouched" means that it still does not exist after the failed write',
                'Latin-1 / cp1252 default encodings are emulated (no such OS locale is installed); the wrapper does '
                'what the interpreter does: supply the default when the caller passed no encoding']
 LEVEL = 'fault_enumeration'
@@ -200,9 +200,12 @@ def check_fault(spec, fault, prior):
         if fault[0] == 'inject':
             return None, 'fault-not-reached'
         return F('write-succeeded-on-invalid-tree', inp, 'write returned', 'raises'), 'run'
+    if before is None and after is not None:
+        return F('failed-write-created-the-destination', inp,
+                 {'exception': r.etype, 'created_bytes': len(after)}, 'no file: nothing was written', r.site), 'run'
     if after != before:
         return F('destination-changed-by-failed-write', inp,
-                 {'exception': r.etype, 'before_len': len(before),
+                 {'exception': r.etype, 'before_len': len(before or b''),
                   'after_len': len(after) if after is not None else 'FILE DELETED', 'after_head': repr((after or b'')[:60])},
                  'destination bytes untouched', r.site), 'run'
     return None, 'run'
@@ -375,7 +378,7 @@ def run_shard(ctx, shard, acc):
                      [['inject', k] for k in range(1, n_indent + 1)] + [['open']]
             acc.extras['fault_points'] = acc.extras.get('fault_points', 0) + len(faults)
             for fault in faults:
-                for prior in ('empty', 'valid', 'bytes'):
+                for prior in ('empty', 'valid', 'bytes', 'absent'):
                     f, status = check_fault(spec, fault, prior)
                     if status != 'run':
                         acc.count(status)
